@@ -121,8 +121,10 @@ fn battalion_overrides(v: &Value) -> Result<Value, String> {
 }
 
 fn valve_to_game(v: &Value) -> Value {
+    // the documented conversion, re-stated (valve::game_json_of): the library's own conversion function is what the module path
+    // runs, so using it here would compare it with itself
     match serde_json::from_value::<vp::Response>(v.clone()) {
-        Ok(r) => serde_json::to_value(vp::game::Response::new_from_valve_response(r)).unwrap(),
+        Ok(_) => crate::valve::game_json_of(v),
         Err(e) => json!({"__not_a_valve_response": e.to_string()}),
     }
 }
